@@ -50,9 +50,12 @@ func runC43(c *mon.Ctx) {
 			break
 		}
 	}
+	// Discarded runs (an answered ping of the 300 ms arm timed out under load) are
+	// not asserted, only counted. A quarter of the 'dead' runs have no answered ping
+	// at all and cannot be discarded, so the arm always judges some.
 	c.Add("keepalive_discarded_early_timeout", int64(discarded))
-	if discarded > nB/2 {
-		c.Inconclusive(fmt.Sprintf("keep-alive: %d of %d runs discarded (answered pings timed out under load)", discarded, nB))
+	if discarded >= (nB+1)/2 {
+		c.Inconclusive(fmt.Sprintf("keep-alive: all %d 'dead' runs discarded", discarded))
 	}
 }
 
